@@ -16,13 +16,25 @@ from harness import common as C  # noqa: E402
 def prepare(mod, run):
     """translator + proof obligations + audit. Returns the prep dict; fills run.broken."""
     prep = {"obligations": 0, "discharged": 0, "theorems": [], "axioms_used": [], "driver_ok": False}
-    # 1. translator
+    # 1. translator: the property's own anchors, and every regenerated file its theorems (transitively) import
+    done = set()
     if hasattr(mod, "extract"):
         try:
             for b in mod.extract(run) or []:
                 run.broken.append(b)
+            done.add(mod.PROP)
         except Exception as e:  # a source the translator cannot read is a broken obligation
             run.broken.append(f"translator: {type(e).__name__}: {e}")
+    try:
+        from harness import extract as X
+
+        for g in C.gen_deps(mod.MODULES + mod.DRIVER_TARGETS):
+            if g not in done and g in X.GENERATORS:
+                for b in X.generate(g) or []:
+                    run.broken.append(b)
+        prep["regenerated"] = sorted(done | set(C.gen_deps(mod.MODULES + mod.DRIVER_TARGETS)))
+    except Exception as e:
+        run.broken.append(f"translator: {type(e).__name__}: {e}")
     # 2. model + driver build (needed by the correspondence)
     ok, log, dt = C.lake_build(mod.DRIVER_TARGETS)
     prep["driver_ok"] = ok
